@@ -1,7 +1,9 @@
 package main
 
 import (
+	"bufio"
 	"bytes"
+	"encoding/binary"
 	"io"
 	"io/ioutil"
 	"time"
@@ -12,10 +14,41 @@ import (
 	"github.com/cnotch/ipchub/av/codec/aac"
 	"github.com/cnotch/ipchub/av/format/hls"
 	"github.com/cnotch/ipchub/av/format/mpegts"
+	"github.com/cnotch/ipchub/av/format/rtp"
+	"github.com/cnotch/ipchub/config"
+	"github.com/cnotch/ipchub/media"
 	"github.com/cnotch/xlog"
 )
 
 var commands = map[string]func(Val) Val{}
+
+// the publisher announces no sprop-parameter-sets: SPS/PPS only travel in-band
+const e2eSdp = "v=0\r\no=- 0 0 IN IP4 127.0.0.1\r\ns=No Name\r\nc=IN IP4 127.0.0.1\r\nt=0 0\r\n" +
+	"m=video 0 RTP/AVP 96\r\nb=AS:2500\r\na=rtpmap:96 H264/90000\r\n" +
+	"a=fmtp:96 packetization-mode=1; profile-level-id=64001F\r\na=control:streamid=0\r\n" +
+	"m=audio 0 RTP/AVP 97\r\nb=AS:160\r\na=rtpmap:97 MPEG4-GENERIC/44100/2\r\n" +
+	"a=fmtp:97 profile-level-id=1;mode=AAC-hbr;sizelength=13;indexlength=3;indexdeltalength=3; config=121056E500\r\n" +
+	"a=control:streamid=1\r\n"
+
+// a single-NAL-unit RTP packet, built the way the RTSP reader does (interleaved channel 0)
+func rtpVideo(seq uint16, ts uint32, nal []byte) *rtp.Packet {
+	var b bytes.Buffer
+	hdr := []byte{0x80, 96, 0, 0, 0, 0, 0, 0, 0x11, 0x22, 0x33, 0x44}
+	binary.BigEndian.PutUint16(hdr[2:], seq)
+	binary.BigEndian.PutUint32(hdr[4:], ts)
+	b.WriteByte(rtp.TransferPrefix)
+	b.WriteByte(0)
+	var l [2]byte
+	binary.BigEndian.PutUint16(l[:], uint16(len(hdr)+len(nal)))
+	b.Write(l[:])
+	b.Write(hdr)
+	b.Write(nal)
+	p, err := rtp.ReadPacket(bufio.NewReader(&b), rtp.DefaultChannelConfig)
+	if err != nil {
+		panic(err)
+	}
+	return p
+}
 
 func main() { Main(commands) }
 
@@ -48,6 +81,22 @@ func readSeg(r io.Reader) []byte {
 		c.Close()
 	}
 	return b
+}
+
+// an event (2 sps pps) stores parameter sets into the shared meta, as the RTP depacketizer does
+// when it learns them in-band
+func isSet(v Val) bool { return v.At(0).K == 'i' && v.At(0).Int() == 2 }
+func applySet(vm *codec.VideoMeta, v Val) {
+	vm.Sps = append([]byte(nil), v.At(1).Bytes()...)
+	vm.Pps = append([]byte(nil), v.At(2).Bytes()...)
+}
+
+// does the frame reach the FrameWriter (in-band SPS/PPS/AUD are not forwarded)
+func carried(f *codec.Frame) bool {
+	if f.MediaType != codec.MediaTypeVideo {
+		return true
+	}
+	return len(f.Payload) > 0 && !(f.Payload[0]&0x1f >= 7 && f.Payload[0]&0x1f <= 9)
 }
 
 func toFrame(v Val) *codec.Frame {
@@ -101,6 +150,10 @@ func init() {
 			vp := mpegts.NewH264Packetizer(vm, fw)
 			ap := mpegts.NewAacPacketizer(am, fw)
 			for _, f := range frames {
+				if isSet(f) {
+					applySet(vm, f)
+					continue
+				}
 				fr := toFrame(f)
 				if fr.MediaType == codec.MediaTypeVideo {
 					if err := vp.Packetize(fr); err != nil {
@@ -126,19 +179,33 @@ func init() {
 		if err != nil {
 			return Panic("NewMuxer: " + err.Error())
 		}
-		for _, f := range frames {
-			mux.WriteFrame(toFrame(f))
-		}
-		want := int(c.At(5).Int())
+		// the muxer goroutine reads the shared meta: before it is changed, wait until every frame
+		// pushed so far has been written (a missing call times out and shows in the bytes)
+		pushed, got := 0, 0
 		deadline := time.After(5 * time.Second)
-		for got := 0; got < want; {
-			select {
-			case <-cw.done:
-				got++
-			case <-deadline:
-				got = want
+		drain := func() {
+			for got < pushed {
+				select {
+				case <-cw.done:
+					got++
+				case <-deadline:
+					got = pushed
+				}
 			}
 		}
+		for _, f := range frames {
+			if isSet(f) {
+				drain()
+				applySet(vm, f)
+				continue
+			}
+			fr := toFrame(f)
+			if carried(fr) {
+				pushed++
+			}
+			mux.WriteFrame(fr)
+		}
+		drain()
 		// a frame that is (wrongly or rightly) not forwarded produces no call; give stragglers a moment
 		time.Sleep(2 * time.Millisecond)
 		for len(cw.done) > 0 {
@@ -169,6 +236,10 @@ func init() {
 		segs := []Val{}
 		next := 1
 		for _, f := range c.At(4).List() {
+			if isSet(f) {
+				applySet(vm, f)
+				continue
+			}
 			fr := toFrame(f)
 			if fr.MediaType == codec.MediaTypeVideo {
 				vp.Packetize(fr)
@@ -186,6 +257,58 @@ func init() {
 		}
 		sg.Close()
 		pl.Close()
+		return L(I(0), L(segs...))
+	}
+
+	// (0 sps pps asc frames marker): end to end.  media.NewStream with an SDP WITHOUT
+	// sprop-parameter-sets; every source NAL unit travels as a single-NAL RTP packet (timestamp =
+	// pts in 90 kHz) through Stream.WriteRtpPacket -> rtp demuxer -> Stream.WriteFrame -> ts muxer ->
+	// hls.SegmentGenerator.  Segments are read from Stream.Hlsable() as they appear, until the one
+	// containing the marker payload (the last but one key frame) is closed.
+	commands["C09_e2e"] = func(c Val) (out Val) {
+		defer func() {
+			if r := recover(); r != nil {
+				out = L(I(1))
+			}
+		}()
+		config.VerifSetHlsFragment(5)
+		config.VerifSetHlsPath("")
+		s := media.NewStream("/c09e2e", e2eSdp)
+		defer s.Close()
+		h := s.Hlsable()
+		if h == nil {
+			return Panic("no hls")
+		}
+		marker := c.At(5).Bytes()
+		segs := []Val{}
+		next := 1
+		found := false
+		poll := func() {
+			for {
+				r, _, err := h.Segment(next)
+				if err != nil {
+					return
+				}
+				b := readSeg(r)
+				if bytes.Contains(b, marker) {
+					found = true
+				}
+				segs = append(segs, B(b))
+				next++
+			}
+		}
+		seq := uint16(0)
+		for _, f := range c.At(4).List() {
+			fr := toFrame(f)
+			seq++
+			s.WriteRtpPacket(rtpVideo(seq, uint32(fr.Pts*9/100000), fr.Payload))
+			poll()
+		}
+		deadline := time.Now().Add(8 * time.Second)
+		for !found && time.Now().Before(deadline) {
+			time.Sleep(time.Millisecond)
+			poll()
+		}
 		return L(I(0), L(segs...))
 	}
 
